@@ -11,6 +11,8 @@ package scipipe
 //   VERIF_TRACE=<file>      append one line per hook call: seq \t point \t gid \t args...
 //   VERIF_CRASH_AT=<pt>#<n> SIGKILL the own process group at the n-th call (1-based) of point <pt>
 //   VERIF_DELAY=<pt>:<ms>[,<pt>:<ms>...]  sleep at a point (widens race windows for searches)
+//   VERIF_NOHOOKS=1         hooks return at once, without taking their mutex (race-detector builds:
+//                           the hook mutex would otherwise order every pair of hooked events)
 
 import (
 	"bytes"
@@ -33,6 +35,8 @@ var (
 	vhCrashPt string
 	vhCrashN  int
 	vhDelays  = map[string]time.Duration{}
+	// read once during package initialization, which happens before any goroutine exists
+	vhDisabled = os.Getenv("VERIF_NOHOOKS") != ""
 )
 
 func vhSetup() {
@@ -76,6 +80,9 @@ func vhGid() string {
 }
 
 func vhook(point string, args ...string) {
+	if vhDisabled {
+		return
+	}
 	vhMu.Lock()
 	if !vhInit {
 		vhSetup()
